@@ -369,9 +369,12 @@ def replay(cfg, events):
         e = dict(e)
         op = e["op"]
         if op == "spell_plan" and e["fmt"] == "json-ld":
-            from .jsonld_spell import JsonLdWriter
+            from .jsonld_spell import JsonLdWriter, Unrenderable
             jw = JsonLdWriter(e["seed"], e["plan"]["doc"])
-            text = jw.render()
+            try:
+                text = jw.render()
+            except Unrenderable:      # (no JSON document spells this token list: nothing to hand to rdflib)
+                continue
             e2 = {"op": "spell", "fmt": "json-ld", "routes_wanted": e["routes"], "family": e.get("family", "")}
             do_spell(e2, text, jw.expected(e["plan"]["quads"], abst))
             evs.append(e2)
